@@ -140,16 +140,19 @@ impl Allocator {
     }
     // machine-arithmetic side conditions (listed as assumptions): fewer than 2^24 indices ever
     // allocated (hibitset's own hard limit), fewer than 2^31-3 reuses of one index.
-    pub open spec fn headroom(&self) -> bool {
-        &&& self.max_id@ < 0x100_0000
-        &&& forall|i: int| -(i32::MAX - 2) < #[trigger] self.gid(i) && self.gid(i) < i32::MAX - 2
+    pub open spec fn headroom_n(&self, m: int) -> bool {
+        &&& self.max_id@ + m <= 0x100_0003
+        &&& forall|i: int| -(i32::MAX - m) < #[trigger] self.gid(i) && self.gid(i) < i32::MAX - m
     }
-    // what is_alive computes, for any handle with a positive generation
-    pub open spec fn alive_spec(&self, e: Entity) -> bool {
-        if self.occ(e.0) { e.1.0@ == self.hw(e.0) }
-        else if self.gid(e.0 as int) == 0 { e.1.0@ == 1 }
-        else { false }
+    // public operations demand a margin of 3, leaf functions of 2 (one batch kill moves a generation by at most 1)
+    pub open spec fn headroom(&self) -> bool { self.headroom_n(3) }
+    // the generation is_alive / entity() / the entities join compare against or return for index i
+    pub open spec fn cur_gen(&self, i: u32) -> int {
+        let z = self.gid(i as int);
+        if z <= 0 && self.raised@.contains(i) { 1 - z } else if z != 0 { z } else { 1 }
     }
+    // what is_alive computes
+    pub open spec fn alive_spec(&self, e: Entity) -> bool { e.1.0@ == self.cur_gen(e.0) }
 }
 
 // legit handles: is_alive is exactly "current"
@@ -161,11 +164,198 @@ pub proof fn lemma_alive_spec_is_current(a: &Allocator, e: Entity)
     let s = a.abs();
     assert(s.hwv(e.0) == a.hw(e.0));
     assert(s.occ(e.0) == a.occ(e.0));
-    if !a.occ(e.0) {
-        if a.gid(e.0 as int) == 0 {
-            assert(a.hw(e.0) == 0);
+    assert(a.alive@.contains(e.0) <==> a.gid(e.0 as int) > 0);
+    if a.raised@.contains(e.0) { assert(a.gid(e.0 as int) <= 0); }
+}
+
+// a legit handle that is not current names an index whose generation slot exists
+//@props C02
+pub proof fn lemma_legit_in_range(a: &Allocator, e: Entity)
+    requires a.wf(), a.abs().legit(e),
+    ensures a.abs().current(e) || (e.0 as int) < a.generations@.len(),
+{
+    let s = a.abs();
+    assert(s.hwv(e.0) == a.hw(e.0));
+    assert(s.occ(e.0) == a.occ(e.0));
+    assert(a.alive@.contains(e.0) <==> a.gid(e.0 as int) > 0);
+}
+
+pub proof fn lemma_abs_defer_kill(o: &Allocator, n: &Allocator, e: Entity)
+    requires
+        n.generations == o.generations, n.alive == o.alive, n.raised == o.raised, n.cache == o.cache, n.max_id == o.max_id,
+        n.killed@ == o.killed@.insert(e.0) || n.killed == o.killed,
+    ensures
+        n.killed@ == o.killed@.insert(e.0) ==> n.abs() == o.abs().defer_kill(e),
+        n.killed == o.killed ==> n.abs() == o.abs(),
+{
+    assert(n.abs().hw =~= o.abs().hw);
+}
+
+// ---------------------------------------------------------------- concrete transition lemmas
+// (stated over the old and the new value of the real struct; called from proof hints in the real bodies)
+
+pub open spec fn gens_extend_except(o: &Allocator, n: &Allocator, id: int) -> bool {
+    &&& n.generations@.len() >= o.generations@.len()
+    &&& forall|k: int| 0 <= k < n.generations@.len() && k != id ==>
+            (k < o.generations@.len() ==> #[trigger] n.generations@[k] == o.generations@[k])
+            && (k >= o.generations@.len() ==> n.generations@[k].0 is None)
+}
+
+pub proof fn lemma_gid_frame(o: &Allocator, n: &Allocator, id: int)
+    requires gens_extend_except(o, n, id),
+    ensures forall|k: int| k != id ==> #[trigger] n.gid(k) == o.gid(k),
+{
+    assert forall|k: int| k != id implies #[trigger] n.gid(k) == o.gid(k) by {
+        if 0 <= k < n.generations@.len() {
+            if k < o.generations@.len() { assert(n.generations@[k] == o.generations@[k]); }
+            else { assert(n.generations@[k].0 is None); }
         }
     }
+}
+
+pub proof fn lemma_kill_atomic(o: &Allocator, n: &Allocator, e: Entity)
+    requires
+        o.wf(),
+        n.generations == o.generations, n.alive == o.alive, n.raised == o.raised, n.cache == o.cache, n.max_id == o.max_id,
+        (n.killed@ == o.killed@.insert(e.0) && o.occ(e.0)) || n.killed == o.killed,
+    ensures
+        n.wf(),
+        o.wf_complete() ==> n.wf_complete(),
+        forall|k: int| n.gid(k) == o.gid(k),
+{
+    assert forall|k: int| n.gid(k) == o.gid(k) by {}
+    assert forall|i: u32| #![trigger n.killed@.contains(i)] n.killed@.contains(i) implies n.occ(i) by {
+        if i != e.0 || n.killed == o.killed { assert(o.killed@.contains(i)); assert(o.occ(i)); }
+    }
+    assert forall|i: u32| #![trigger n.alive@.contains(i)] n.alive@.contains(i) <==> n.gid(i as int) > 0 by {
+        assert(o.alive@.contains(i) <==> o.gid(i as int) > 0);
+    }
+    assert forall|i: u32| #![trigger n.raised@.contains(i)] n.raised@.contains(i) implies n.gid(i as int) <= 0 && (i as int) < n.max_id@ by {
+        assert(o.raised@.contains(i));
+    }
+    assert forall|i: u32| #![trigger n.gid(i as int)] (i as int) >= n.max_id@ implies n.gid(i as int) == 0 by {
+        assert(o.gid(i as int) == 0);
+    }
+    assert forall|k: int| 0 <= k < n.cache@.len() implies {
+            let i = #[trigger] n.cache@[k];
+            (i as int) < n.max_id@ && !n.occ(i) && n.gid(i as int) < 0 } by {
+        let i = o.cache@[k];
+        assert((i as int) < o.max_id@ && !o.occ(i) && o.gid(i as int) < 0);
+    }
+    if o.wf_complete() {
+        assert forall|i: u32| #![trigger n.occ(i)] (i as int) < n.max_id@ && !n.occ(i) implies n.cache@.contains(i) by {
+            assert(!o.occ(i));
+        }
+    }
+}
+
+// shared by allocate (now = true: index joins `alive`, stored generation raised)
+// and allocate_atomic (now = false: index joins `raised`, stored generation untouched)
+pub proof fn lemma_alloc(o: &Allocator, n: &Allocator, id: u32, now: bool)
+    requires
+        o.wf(), o.headroom(),
+        n.killed == o.killed,
+        n.cache.wf(),
+        o.cache@.len() > 0 ==> id == o.cache@.last() && n.cache@ == o.cache@.drop_last() && n.max_id@ == o.max_id@,
+        o.cache@.len() == 0 ==> id as int == o.max_id@ && n.cache@ == o.cache@ && n.max_id@ == o.max_id@ + 1,
+        now ==> n.alive@ == o.alive@.insert(id) && n.raised == o.raised,
+        now ==> gens_extend_except(o, n, id as int),
+        now ==> (id as int) < n.generations@.len(),
+        now ==> zid(n.generations@[id as int]) == 1 - o.gid(id as int) && n.generations@[id as int].0 is Some,
+        !now ==> n.raised@ == o.raised@.insert(id) && n.alive == o.alive && n.generations == o.generations,
+    ensures
+        n.wf(),
+        n.abs() == (if now { o.abs().create_now() } else { o.abs().create_deferred() }),
+        o.wf_complete() ==> n.wf_complete(),
+        n.headroom_n(2),
+        !o.occ(id), o.gid(id as int) <= 0,
+        n.cur_gen(id) == o.abs().created().1,
+        id == o.abs().next_index(),
+{
+    let len = o.cache@.len() as int;
+    if len > 0 {
+        assert(o.cache@[len - 1] == id);
+        assert((id as int) < o.max_id@ && !o.occ(id) && o.gid(id as int) < 0);
+    } else {
+        assert(o.gid(id as int) == 0);
+        assert(!o.occ(id)) by {
+            if o.alive@.contains(id) { assert(o.gid(id as int) > 0); }
+            if o.raised@.contains(id) { assert((id as int) < o.max_id@); }
+        }
+    }
+    assert(o.alive@.contains(id) <==> o.gid(id as int) > 0);
+    if now { lemma_gid_frame(o, n, id as int); }
+    assert forall|k: int| k != id as int implies #[trigger] n.gid(k) == o.gid(k) by {}
+    assert(n.gid(id as int) == (if now { 1 - o.gid(id as int) } else { o.gid(id as int) }));
+    // ---- wf
+    assert forall|i: int| 0 <= i < n.generations@.len() implies ((#[trigger] n.generations@[i]).0 is Some ==> zid(n.generations@[i]) != 0) by {
+        if now {
+            if i != id as int {
+                if i < o.generations@.len() { assert(n.generations@[i] == o.generations@[i]); }
+            }
+        }
+    }
+    assert forall|i: u32| #![trigger n.alive@.contains(i)] n.alive@.contains(i) <==> n.gid(i as int) > 0 by {
+        assert(o.alive@.contains(i) <==> o.gid(i as int) > 0);
+        if i != id { assert(n.gid(i as int) == o.gid(i as int)); }
+    }
+    assert forall|i: u32| #![trigger n.raised@.contains(i)] n.raised@.contains(i) implies n.gid(i as int) <= 0 && (i as int) < n.max_id@ by {
+        if i != id { assert(o.raised@.contains(i)); assert(n.gid(i as int) == o.gid(i as int)); }
+    }
+    assert forall|i: u32| #![trigger n.gid(i as int)] (i as int) >= n.max_id@ implies n.gid(i as int) == 0 by {
+        assert(i != id);
+        assert(n.gid(i as int) == o.gid(i as int));
+    }
+    assert forall|i: u32| #![trigger n.killed@.contains(i)] n.killed@.contains(i) implies n.occ(i) by {
+        assert(o.killed@.contains(i)); assert(o.occ(i));
+    }
+    assert forall|k: int| 0 <= k < n.cache@.len() implies {
+            let i = #[trigger] n.cache@[k];
+            (i as int) < n.max_id@ && !n.occ(i) && n.gid(i as int) < 0 } by {
+        let i = o.cache@[k];
+        assert(n.cache@[k] == i);
+        assert((i as int) < o.max_id@ && !o.occ(i) && o.gid(i as int) < 0);
+        if len > 0 { assert(o.cache@[k] != o.cache@[len - 1]); }
+        assert(i != id);
+        assert(n.gid(i as int) == o.gid(i as int));
+    }
+    assert forall|k: int, l: int| 0 <= k < l < n.cache@.len() implies n.cache@[k] != n.cache@[l] by {
+        assert(n.cache@[k] == o.cache@[k] && n.cache@[l] == o.cache@[l]);
+    }
+    // ---- abstract state
+    let a = if now { o.abs().create_now() } else { o.abs().create_deferred() };
+    assert(o.abs().next_index() == id);
+    assert forall|i: u32| n.hw(i) == #[trigger] (a.hw)(i) by {
+        if i != id { assert(n.gid(i as int) == o.gid(i as int)); }
+    }
+    assert(n.abs().hw =~= a.hw);
+    assert(n.abs().free =~= a.free);
+    // ---- completeness of the free list
+    if o.wf_complete() {
+        assert forall|i: u32| #![trigger n.occ(i)] (i as int) < n.max_id@ && !n.occ(i) implies n.cache@.contains(i) by {
+            assert(i != id);
+            assert(!o.occ(i));
+            assert((i as int) < o.max_id@);
+            assert(o.cache@.contains(i));
+            let k = choose|k: int| 0 <= k < o.cache@.len() && o.cache@[k] == i;
+            assert(k != len - 1);
+            assert(n.cache@[k] == i);
+        }
+    }
+    assert forall|i: int| -(i32::MAX - 2) < #[trigger] n.gid(i) && n.gid(i) < i32::MAX - 2 by {
+        assert(-(i32::MAX - 3) < o.gid(i) && o.gid(i) < i32::MAX - 3);
+        assert(-(i32::MAX - 3) < o.gid(id as int) && o.gid(id as int) < i32::MAX - 3);
+    }
+}
+
+// under wf, an occupied index's comparison generation is its high-water generation
+//@props C02
+pub proof fn lemma_cur_gen_is_hw(a: &Allocator, i: u32)
+    requires a.wf(), a.occ(i),
+    ensures a.cur_gen(i) == a.hw(i), a.hw(i) >= 1,
+{
+    assert(a.alive@.contains(i) <==> a.gid(i as int) > 0);
+    if a.raised@.contains(i) { assert(a.gid(i as int) <= 0); }
 }
 
 // ---------------------------------------------------------------- kill_fold facts
